@@ -42,9 +42,20 @@ type Std struct {
 	Feeder  *Acct
 	Prices  map[string]math.LegacyDec // display -> price
 	Display map[string]string         // denom -> display
+	USDC    string                    // the denom USDC has on this chain ("uusdc", or an ibc/… voucher as in production)
 }
 
+// ibcUSDC: a voucher denom for the world variant in which the base currency's on-chain denom differs from its base denom.
+const ibcUSDC = "ibc/2180E84E20F5679FCC760D8C165B60F42065DEF7F46A72B447CFF1B7DC6C0A65"
+
 var D = math.LegacyMustNewDecFromStr
+
+func (w *World) usdc() string {
+	if w.USDC == "" {
+		return "uusdc"
+	}
+	return w.USDC
+}
 
 func (w *World) SetPrice(ctx sdk.Context, display string, price math.LegacyDec, provider string) {
 	w.App.OracleKeeper.SetPrice(ctx, oracletypes.Price{
@@ -55,11 +66,11 @@ func (w *World) SetPrice(ctx sdk.Context, display string, price math.LegacyDec, 
 
 func (w *World) createPool(ctx sdk.Context, creator sdk.AccAddress, oracle bool, fee math.LegacyDec, d2 string, a1, a2 math.Int, w1, w2 int64) PoolRef {
 	assets := []ammtypes.PoolAsset{
-		{Token: sdk.NewCoin("uusdc", a1), Weight: math.NewInt(w1), ExternalLiquidityRatio: math.LegacyNewDec(2)},
+		{Token: sdk.NewCoin(w.usdc(), a1), Weight: math.NewInt(w1), ExternalLiquidityRatio: math.LegacyNewDec(2)},
 		{Token: sdk.NewCoin(d2, a2), Weight: math.NewInt(w2), ExternalLiquidityRatio: math.LegacyNewDec(2)},
 	}
 	sort.Slice(assets, func(i, j int) bool { return strings.Compare(assets[i].Token.Denom, assets[j].Token.Denom) <= 0 })
-	msg := &ammtypes.MsgCreatePool{Sender: creator.String(), PoolParams: ammtypes.PoolParams{UseOracle: oracle, SwapFee: fee, FeeDenom: "uusdc"}, PoolAssets: assets}
+	msg := &ammtypes.MsgCreatePool{Sender: creator.String(), PoolParams: ammtypes.PoolParams{UseOracle: oracle, SwapFee: fee, FeeDenom: w.usdc()}, PoolAssets: assets}
 	id, err := w.App.AmmKeeper.CreatePool(ctx, msg)
 	if err != nil {
 		panic(err)
@@ -82,9 +93,13 @@ func (w *World) SeedStandard() *Std { return w.SeedStandardAt(D("5")) }
 // SeedStandardAt: the same world with another ATOM price (pool compositions follow the price, so every pool starts
 // balanced by value). A price below 1 makes one base unit of uatom worth less than one of uusdc: conversions of dust
 // then truncate to zero.
-func (w *World) SeedStandardAt(atomPrice math.LegacyDec) *Std {
+func (w *World) SeedStandardAt(atomPrice math.LegacyDec) *Std { return w.SeedStandardWith(atomPrice, "uusdc") }
+
+// SeedStandardWith: the same world with USDC living under `usdc` on the chain (asset-profile entry BaseDenom "uusdc", Denom usdc).
+func (w *World) SeedStandardWith(atomPrice math.LegacyDec, usdc string) *Std {
+	w.USDC = usdc
 	std := &Std{Prices: map[string]math.LegacyDec{"USDC": D("1"), "ATOM": atomPrice, "ELYS": D("3")},
-		Display: map[string]string{"uusdc": "USDC", "uatom": "ATOM", "uelys": "ELYS"}}
+		Display: map[string]string{usdc: "USDC", "uatom": "ATOM", "uelys": "ELYS"}, USDC: usdc}
 	app := w.App
 	for _, m := range []string{"commitment", "amm", "masterchef", "stablestake", "leveragelp", "perpetual", "tradeshield",
 		"fee_collector", "distribution", "estaking", "burner", "tokenomics", "mint", "gov", "bonded_tokens_pool", "not_bonded_tokens_pool",
@@ -93,7 +108,7 @@ func (w *World) SeedStandardAt(atomPrice math.LegacyDec) *Std {
 	}
 	w.Seed(func(ctx sdk.Context) {
 		for _, e := range []aptypes.Entry{
-			{BaseDenom: "uusdc", Denom: "uusdc", Decimals: 6, DisplayName: "USDC", CommitEnabled: true, WithdrawEnabled: true},
+			{BaseDenom: "uusdc", Denom: usdc, Decimals: 6, DisplayName: "USDC", CommitEnabled: true, WithdrawEnabled: true},
 			{BaseDenom: "uatom", Denom: "uatom", Decimals: 6, DisplayName: "ATOM", CommitEnabled: true, WithdrawEnabled: true},
 			{BaseDenom: "uelys", Denom: "uelys", Decimals: 6, DisplayName: "ELYS", CommitEnabled: true, WithdrawEnabled: true},
 			{BaseDenom: "ueden", Denom: "ueden", Decimals: 6, DisplayName: "EDEN", CommitEnabled: true, WithdrawEnabled: true},
@@ -103,7 +118,7 @@ func (w *World) SeedStandardAt(atomPrice math.LegacyDec) *Std {
 		}
 		std.Feeder = w.Accts[len(w.Accts)-1]
 		app.OracleKeeper.SetPriceFeeder(ctx, oracletypes.PriceFeeder{Feeder: std.Feeder.Addr.String(), IsActive: true})
-		for _, dn := range []string{"uusdc", "uatom", "uelys"} {
+		for _, dn := range []string{usdc, "uatom", "uelys"} {
 			app.OracleKeeper.SetAssetInfo(ctx, oracletypes.AssetInfo{Denom: dn, Display: std.Display[dn], Decimal: 6, BandTicker: std.Display[dn], ElysTicker: std.Display[dn]})
 			w.SetPrice(ctx, std.Display[dn], std.Prices[std.Display[dn]], std.Feeder.Addr.String())
 		}
@@ -114,12 +129,15 @@ func (w *World) SeedStandardAt(atomPrice math.LegacyDec) *Std {
 
 		big := math.NewInt(1_000_000_000_000_000)
 		for _, a := range w.Accts {
-			w.Fund(ctx, a.Addr, sdk.NewCoins(sdk.NewCoin("uusdc", big), sdk.NewCoin("uatom", big), sdk.NewCoin("uelys", big)))
+			w.Fund(ctx, a.Addr, sdk.NewCoins(sdk.NewCoin(usdc, big), sdk.NewCoin("uatom", big), sdk.NewCoin("uelys", big)))
 		}
 		// module params
 		_ = app.StakingKeeper // staking params come from genesis (bond denom uelys)
 		app.ParameterKeeper.SetParams(ctx, ptypes.DefaultGenesis().Params)
-		app.MasterchefKeeper.SetParams(ctx, mctypes.DefaultGenesis().Params)
+		mcp := mctypes.DefaultGenesis().Params
+		// third parties may fund incentives in ATOM and in the base currency (governance's MsgAddExternalRewardDenom)
+		mcp.SupportedRewardDenoms = []*mctypes.SupportedRewardDenom{{Denom: "uatom", MinAmount: math.NewInt(1)}, {Denom: usdc, MinAmount: math.NewInt(1)}}
+		app.MasterchefKeeper.SetParams(ctx, mcp)
 		w.Names[mctypes.DefaultGenesis().Params.ProtocolRevenueAddress] = "protocolRevenue"
 		app.StablestakeKeeper.SetParams(ctx, sstypes.DefaultGenesis().Params)
 		lpp := lptypes.DefaultGenesis().Params
@@ -134,7 +152,7 @@ func (w *World) SeedStandardAt(atomPrice math.LegacyDec) *Std {
 			{BaseDenom: "uatom", VestingDenom: "uatom", NumBlocks: 60, VestNowFactor: math.NewInt(90), NumMaxVestings: 8}}
 		app.CommitmentKeeper.SetParams(ctx, cp)
 		ap := app.AmmKeeper.GetParams(ctx)
-		ap.BaseAssets = []string{"uusdc"}
+		ap.BaseAssets = []string{usdc}
 		ap.PoolCreationFee = math.ZeroInt()
 		app.AmmKeeper.SetParams(ctx, ap)
 
